@@ -28,6 +28,9 @@ FUNCTIONS = [
     "nessai.proposal.flowproposal.FlowProposal.convert_to_samples",
     "nessai.proposal.flowproposal.FlowProposal.inverse_rescale",
     "nessai.proposal.flowproposal.FlowProposal.draw",
+    "nessai.proposal.augmented.AugmentedFlowProposal.backward_pass",
+    "nessai.proposal.augmented.AugmentedFlowProposal.log_prior",
+    "nessai.proposal.augmented.AugmentedFlowProposal.augmented_prior",
     "nessai.proposal.rejection.RejectionProposal.populate",
     "nessai.proposal.rejection.RejectionProposal.compute_weights",
     "nessai.proposal.analytic.AnalyticProposal.populate",
@@ -49,7 +52,7 @@ ASSUMPTIONS = [
     "the latent draw is an arbitrary array (the radial truncation of the latent samplers is not decided here)",
 ]
 OUTSIDE = ["latent dimensions other than 2 for the radial samplers", "that the pool is distributed as the prior restricted to the contour (distributional)", "termination of the population loop (paths needing more iterations than the bound are counted as out-of-bound)",
-           "augmented / gravitational-wave / clustering proposal overrides", "the distribution of the radial latent samplers (only the radius bound is decided, relative to: chi ppf/cdf inverse and monotone, gammaincinv(d/2, chi.cdf(y)) = y^2/2)"]
+           "marginalise_augment=True of the augmented proposal (Monte-Carlo marginalisation through the flow); the gravitational-wave and clustering proposals only change configuration / training and inherit the population code checked here", "the distribution of the radial latent samplers (only the radius bound is decided, relative to: chi ppf/cdf inverse and monotone, gammaincinv(d/2, chi.cdf(y)) = y^2/2)"]
 
 PARALLEL_UNITS = True
 MODS = ["nessai.proposal.flowproposal", "nessai.proposal.rejection", "nessai.proposal.analytic", "nessai.proposal.base", "nessai.model", "nessai.livepoint", "nessai.utils.structures"]
@@ -144,17 +147,20 @@ class FlowStub:
 
 class IdentityReparam:
     def inverse_reparameterise(self, x, x_prime, log_J, **kw):
-        x["x"] = x_prime["x"]
+        for n in x_prime.dtype.names:
+            if n in x.dtype.names and n not in ("logP", "logL", "it", "logW", "logQ"):
+                x[n] = x_prime[n]
         return x, x_prime, log_J
 
     def log_prior(self, x):
         return 0.0
 
 
-def _flow_proposal(ctx, model, N, drawsize, accumulate, max_calls):
+def _flow_proposal(ctx, model, N, drawsize, accumulate, max_calls, cls=None):
     from nessai.proposal.flowproposal import FlowProposal
     from nessai.livepoint import get_dtype
-    fp = FlowProposal.__new__(FlowProposal)
+    cls = cls or FlowProposal
+    fp = cls.__new__(cls)
     fp.model = model
     fp.initialised = True
     fp.fixed_radius = 2.0
@@ -232,6 +238,71 @@ def make_flow_populate(N, drawsize, accumulate, loops):
         handed = [first]
         while fp.populated:
             handed.append(fp.draw(worst))
+        ctx.prove(len(handed) == n_pool, "draw hands out each pool point exactly once before the pool is declared empty")
+        ctx.cover("end")
+    return body
+
+
+class _NormStub:
+    """scipy.stats.norm.logpdf of the augment parameters: -x^2/2 up to its constant, on symbolic values."""
+
+    @staticmethod
+    def logpdf(x):
+        return -(x * x) / 2 - 0.9189385332046727
+
+
+class FlowStub2(FlowStub):
+    """Two-column flow output: the model parameter and one augment parameter."""
+
+    def sample_and_log_prob(self, z=None, alt_dist=None, N=None):
+        x, lq = super().sample_and_log_prob(z=z, alt_dist=alt_dist, N=N)
+        ctx = self.ctx
+        e = np.empty((len(x), 1), dtype=x.dtype)
+        for i in range(len(x)):
+            e[i, 0] = ctx.real(ctx.fresh("flow_e"), -6, 6)
+        return np.concatenate([x, e], axis=1), lq
+
+
+class IdentityReparam2(IdentityReparam):
+    pass
+
+
+def make_augmented_populate(N, drawsize, loops):
+    """AugmentedFlowProposal: its backward_pass / log_prior overrides in front of the inherited population code."""
+    def body(ctx):
+        import nessai.proposal.augmented as aug
+        from nessai.livepoint import get_dtype
+        lo, hi = ctx.real("lo", -5, 5), ctx.real("hi", -5, 5)
+        ctx.assume(lo < hi)
+        model = _model(ctx, lo, hi)
+        fp = _flow_proposal(ctx, model, N, drawsize, False, loops, cls=aug.AugmentedFlowProposal)
+        fp.flow = FlowStub2(ctx, loops)
+        fp.augment_dims, fp.augment_parameters, fp.marginalise_augment, fp.n_marg = 1, ["e_0"], False, 1
+        fp.generate_augment = "gaussian"
+        fp.parameters = ["x", "e_0"]
+        fp.prime_parameters = ["x", "e_0"]
+        fp._x_dtype = get_dtype(["x", "e_0"])
+        fp._x_prime_dtype = get_dtype(["x", "e_0"])
+        saved = aug.stats
+        aug.stats = type("S", (), {"norm": _NormStub})()
+        if ctx.mode == "sym":
+            _symnp.symrandom.reset()
+        try:
+            try:
+                fp.populate(None, N=fp.poolsize)
+                first = fp.draw(None)
+            except IndexError:
+                ctx.cover("IndexError on non-finite flow density (outside the property)")
+                ctx.assume(False)
+        finally:
+            aug.stats = saved
+        n_pool = len(fp.samples)
+        ctx.prove(n_pool == N, "augmented flow pool has exactly the requested size")
+        ctx.prove("e_0" not in fp.samples.dtype.names, "auxiliary augment parameters are not part of the pool handed to the sampler")
+        _check_pool(ctx, model, fp.samples, lo, hi, "augmented flow pool")
+        handed = [first]
+        while fp.populated:
+            handed.append(fp.draw(None))
         ctx.prove(len(handed) == n_pool, "draw hands out each pool point exactly once before the pool is declared empty")
         ctx.cover("end")
     return body
@@ -398,6 +469,9 @@ def units(tier):
                 continue
             us.append(Unit(f"flow_populate[N={N},drawsize=2,accumulate={acc}]", make_flow_populate(N, 2, acc, 2 if q else 3), MODS, opts, expect_cover=["end"],
                            mutants=["size"] if (N, acc) == (1, False) else [], twin_runs=20, witness_every=10, setup=setup, nproc=1, time_budget_s=900))
+    for N in ((1,) if q else (1, 2)):
+        us.append(Unit(f"augmented_populate[N={N},drawsize=2]", make_augmented_populate(N, 2, 2), MODS + ["nessai.proposal.augmented"], opts, expect_cover=["end"],
+                       twin_runs=20, witness_every=10, setup=setup, nproc=1, time_budget_s=900))
     nl = dict(exp_axioms="signs", fresh=True, timeout_ms=60000)
     for kind in ("nsphere", "truncated_gaussian", "class"):
         us.append(Unit(f"latent_radius[{kind},d=2]", make_latent_radius(kind, 2), MODS + ["nessai.utils.sampling"], nl, expect_cover=["end"],
